@@ -16,6 +16,7 @@ import (
 	"path/filepath"
 	"reflect"
 	"regexp"
+	"sort"
 	"strconv"
 	"strings"
 	"text/template"
@@ -325,6 +326,16 @@ func (c *RootConfig) Initialize(ctx context.Context) error {
 		}
 	}
 
+	// Sub-packages inherit from the first recursive package that reaches them
+	// (later merges only fill fields that are still unset), so visit the most
+	// deeply nested recursive packages first: the nearest configured ancestor
+	// wins, independently of map iteration order.
+	sort.Slice(recursivePackages, func(i, j int) bool {
+		if len(recursivePackages[i]) != len(recursivePackages[j]) {
+			return len(recursivePackages[i]) > len(recursivePackages[j])
+		}
+		return recursivePackages[i] < recursivePackages[j]
+	})
 	for _, recursivePackageName := range recursivePackages {
 		pkgLog := log.With().Str(logging.LogKeyPackagePath, recursivePackageName).Logger()
 		pkgCtx := pkgLog.WithContext(ctx)
